@@ -828,6 +828,14 @@ def _child_body(case):
     name = case["loop"]
     setup, horizon = compile_prog(case)
     loop, clock = _make_loop(name)
+    if name == "trio":
+        # trio shuffles every batch of runnable tasks with a module-level random.Random() seeded from the OS: make
+        # the schedule a function of the case (and of its optional "tseed"), so that a case has one verdict
+        import zlib
+
+        import trio._core._run as _trun
+
+        _trun._r.seed(zlib.crc32(json.dumps(case, sort_keys=True).encode()))
     world = RealWorld(4, clock)
     rt = Runtime(loop, world, STEP)
     if case.get("keeper", True):
@@ -1092,6 +1100,8 @@ def _case(loop):
     if real:
         d["loop"] = st.just(loop)
         d["keeper"] = st.sampled_from([True] * 7 + [False])
+        if loop == "trio":
+            d["tseed"] = st.integers(0, 7)  # only read through the hash that seeds trio's scheduler
     else:
         d["ready"] = st.lists(
             st.tuples(st.integers(0, 12), st.integers(0, 2), st.integers(1, 2)).map(list), max_size=5
